@@ -141,7 +141,10 @@ package raft
 //@ inv [Isnap3] r.lastIncludedIndex > 0 ==> snapSeq > 0
 // Isnap2: the snapshot files a leader keeps open per follower are readers (closing one publishes nothing)
 //@ inv [Isnap2] forall fo *follower :: fo.snapshot != nil ==> !sfWriter[fo.snapshot] && allocated(fo.snapshot)
-//@ inv [Iopen] (r.state != Shutdown ==> logOpen) && (r.configuration == nil ==> logOpen)
+//@ inv [Iopen] (r.state != Shutdown ==> logOpen) && (ioOK && r.configuration == nil ==> logOpen)
+// Istop: the log is only ever closed on a node that is marked as needing a restore (and is reopened by the
+// restore that start() then performs, whichever of Start / Restart is used)
+//@ inv [Istop] !r.needsRestore ==> logOpen
 //@ inv [I11] r.operationManager != nil && r.operationManager.leaderLease != nil
 //@ inv [I11b] r.operationManager.pendingReadOnly != nil && r.operationManager.pendingReplicated != nil
 //@ inv [I11c] forall o *Operation :: o in r.operationManager.pendingReadOnly ==> o != nil
@@ -488,9 +491,11 @@ package raft
 
 //@ iface Log.Open() (err)
 //@   modifies Lfirst, Llast, Lterm, Ltyp, Ldata, logOpen
+//@   ensures ioOK ==> err == nil
 //@ iface Log.Replay() (err)
 //@   modifies Lfirst, Llast, Lterm, Ltyp, Ldata, logOpen
 //@   ensures err == nil ==> 0 <= Lfirst && Lfirst <= Llast && logOpen
+//@   ensures ioOK ==> err == nil
 //@ iface Log.Close() (err)
 //@   modifies logOpen
 //@   ensures !logOpen
@@ -512,6 +517,8 @@ package raft
 //@   requires r.lastApplied <= r.commitIndex
 //@   requires r.log != nil && r.stateStorage != nil && r.snapshotStorage != nil && r.transport != nil && r.fsm != nil
 //@   ensures [term-vote] err == nil ==> r.currentTerm == persTerm && r.votedFor == persVote
+//@   ensures [log-open] err == nil ==> logOpen
+//@   ensures [error-open] ioOK && err != nil ==> logOpen
 //@   ensures [I0] err == nil ==> 0 <= Lfirst && Lfirst <= Llast
 //@   ensures [I1] err == nil ==> r.lastApplied <= r.commitIndex
 //@   at call file.Close assert [I2] r.commitIndex <= Llast && r.commitIndex == r.lastIncludedIndex && r.lastApplied == r.lastIncludedIndex && r.lastIncludedIndex == sfIndex[file]
@@ -983,9 +990,12 @@ package raft
 //@ func Raft.Status
 //@ func Raft.Configuration
 //@ func Raft.Stop
+//@ func Raft.start
+//@   flags splitexits
 //@ func Raft.cancelConfigurationChange
 //@   flags inline lockheld
 
 //@ func Raft.Bootstrap
 //@   flags inv
+//@   assume [A-IOOK] ioOK
 //@   requires r.transport != nil && r.log != nil && r.logger != nil
